@@ -35,7 +35,7 @@ ASSUMPTIONS = [
     "the working directory is the codebase root (as the statement says); exclusions and .codelimit.yml are loaded as codelimit.__main__.check does",
     "a hidden file or hidden directory named directly on the command line is left unconstrained (the statement constrains hidden files 'reached through a directory' that is itself visible)",
     "inputs on which scan itself raises are C03's subject: such cases are counted and skipped",
-    "check_command is invoked in-process with stdout captured and parsed ('path:line:col: length symbol name')",
+    "both commands run in-process through their entry functions in codelimit.__main__ (scan is read from the report it writes, check from its captured stdout: 'path:line:col: length symbol name')",
 ]
 FLOOR = {"quick": 150, "thorough": 3000}
 
